@@ -287,7 +287,7 @@ package stree
 //@   ghostret from imap[int]
 //@   panics when β < 0 || β > 1000
 //@   ensures  [C01] inv: result != nil && fresh(result) && treeInv(result) && sizeInv(result) && result.compare == compare
-//@   ensures  [C01] all: forall i int :: {keys[i]} 0 <= i && i < len(keys) ==> rank(compare, keys[i]) + 1 in result.elems
+//@   ensures  [C01] all: forall i int :: {keys[i]} 0 <= i && i < len(keys) ==> rank(compare, keys[i]) in result.elems
 //@   ensures  [C01] only: forall k int :: {k in result.elems} k in result.elems ==> 0 <= from[k] && from[k] < len(keys) && rank(compare, keys[from[k]]) == k && result.vals[k] == keys[from[k]]
 //@   ensures  [C01] input: unchanged(elems(keys))
 //@   call extract#1: cmp = compare
